@@ -12,13 +12,12 @@ if ! git -C "$wt" apply "$patch"; then echo "patch does not apply"; exit 2; fi
 # builds of scratch worktrees go to a throw-away build cache (each tree would
 # otherwise leave hundreds of megabytes in the shared one)
 export GOCACHE="$wt.gocache"
-trap 'git -C /repo worktree remove --force "$wt" >/dev/null 2>&1; rm -rf "$wt" "$wt.gocache"' EXIT
+trap 'git -C /repo worktree remove --force "$wt" >/dev/null 2>&1; rm -rf "$wt" "$wt.gocache" "$wt.evidence"' EXIT
 cd "$(dirname "$0")/.."
-cp -r evidence "$wt.evidence"
+export VERIF_EVIDENCE_DIR="$wt.evidence"
 for c in "$@"; do
   out=$(VERIF_REPO="$wt" ./run "$c" ${VERIF_TIER:-quick} 2>&1)
   code=$?
   echo "== $c exit=$code"
   echo "$out" | grep -E "VIOLATION|signature:|INCONCLUSIVE|KNOWN-FINDING" | cut -c1-260 | head -12
 done
-rm -rf evidence; mv "$wt.evidence" evidence
